@@ -2,31 +2,33 @@
 (* internal/martian/mitm/mitm.go cert() + cache.go: concurrent handshakes ask for  *)
 (* a leaf for the name the client wants (SNI, else the CONNECT host); the sharded   *)
 (* LRU has a capacity and a lifetime; a hit is re-verified before use.              *)
-EXTENDS Integers, Sequences, FiniteSets, TLC
+EXTENDS Integers, Sequences, FiniteSets, TLC, Json
 
 CONSTANTS Names, Clients, Cap, TTL, Validity, MaxClock,
           NoReverify,      \* mutant: a cache hit is returned without Leaf.Verify
           KeyIgnoresName   \* mutant: every name shares one cache slot (e.g. key derived wrongly)
 
 NoCert == [name |-> "-", nb |-> 0, na |-> -1, at |-> 0]
-VARIABLES clock, cache, lru, pc, want, cert, servedOK
-vars == <<clock, cache, lru, pc, want, cert, servedOK>>
+VARIABLES clock, cache, lru, pc, want, cert, servedOK, hist
+vars == <<clock, cache, lru, pc, want, cert, servedOK, hist>>
 
 Key(n) == IF KeyIgnoresName THEN CHOOSE k \in Names : TRUE ELSE n
 ValidFor(c, n, t) == c.name = n /\ c.nb <= t /\ t <= c.na
 
 Init == /\ clock = 0 /\ cache = [n \in Names |-> NoCert] /\ lru = <<>>
         /\ pc = [c \in Clients |-> "idle"] /\ want = [c \in Clients |-> CHOOSE n \in Names : TRUE]
-        /\ cert = [c \in Clients |-> NoCert] /\ servedOK = TRUE
+        /\ cert = [c \in Clients |-> NoCert] /\ servedOK = TRUE /\ hist = <<>>
 
 \* ASSUMPTION (stated, and respected by harness schedules): from the instant a handshake has
 \* decided which leaf to use until it has served it, less than one clock unit passes; i.e.
 \* validity and TTL are long compared with one handshake.  freelru expires lazily on access.
 Tick == /\ clock < MaxClock /\ clock' = clock + 1
         /\ \A c \in Clients : pc[c] \in {"idle", "lookup", "verify"}
+        /\ hist' = Append(hist, [a |-> "tick", c |-> "-", n |-> "-"])
         /\ UNCHANGED <<cache, lru, pc, want, cert, servedOK>>
 
 Begin(c, n) == /\ pc[c] = "idle" /\ pc' = [pc EXCEPT ![c] = "lookup"] /\ want' = [want EXCEPT ![c] = n]
+               /\ hist' = Append(hist, [a |-> "handshake", c |-> ToString(c), n |-> n])
                /\ UNCHANGED <<clock, cache, lru, cert, servedOK>>
 \* c.certs.Get(hostname)
 Lookup(c) == /\ pc[c] = "lookup"
@@ -36,15 +38,15 @@ Lookup(c) == /\ pc[c] = "lookup"
                 IF live THEN /\ cert' = [cert EXCEPT ![c] = e]
                              /\ pc' = [pc EXCEPT ![c] = IF NoReverify THEN "serve" ELSE "verify"]
                         ELSE /\ pc' = [pc EXCEPT ![c] = "generate"] /\ UNCHANGED cert
-             /\ UNCHANGED <<clock, cache, lru, want, servedOK>>
+             /\ UNCHANGED <<clock, cache, lru, want, servedOK, hist>>
 \* tlsc.Leaf.Verify(DNSName: hostname, Roots: ca): name and validity window at this instant
 Verify(c) == /\ pc[c] = "verify"
              /\ pc' = [pc EXCEPT ![c] = IF ValidFor(cert[c], want[c], clock) THEN "serve" ELSE "generate"]
-             /\ UNCHANGED <<clock, cache, lru, want, cert, servedOK>>
+             /\ UNCHANGED <<clock, cache, lru, want, cert, servedOK, hist>>
 \* x509.CreateCertificate with NotBefore/NotAfter = now -/+ validity and the SAN for this name
 Generate(c) == /\ pc[c] = "generate" /\ pc' = [pc EXCEPT ![c] = "add"]
                /\ cert' = [cert EXCEPT ![c] = [name |-> want[c], nb |-> clock - Validity, na |-> clock + Validity, at |-> clock]]
-               /\ UNCHANGED <<clock, cache, lru, want, servedOK>>
+               /\ UNCHANGED <<clock, cache, lru, want, servedOK, hist>>
 \* c.certs.Add(hostname, tlsc) with LRU eviction at capacity
 Add(c) == /\ pc[c] = "add" /\ pc' = [pc EXCEPT ![c] = "serve"]
           /\ LET k == Key(want[c])
@@ -53,15 +55,35 @@ Add(c) == /\ pc[c] = "add" /\ pc' = [pc EXCEPT ![c] = "serve"]
              /\ lru' = IF Len(l1) > Cap THEN Tail(l1) ELSE l1
              /\ cache' = [n \in Names |-> IF n = k THEN [cert[c] EXCEPT !.at = clock]
                                           ELSE IF Len(l1) > Cap /\ n = ev THEN NoCert ELSE cache[n]]
-          /\ UNCHANGED <<clock, want, cert, servedOK>>
+          /\ UNCHANGED <<clock, want, cert, servedOK, hist>>
 \* GetCertificate returns: the client verifies what it gets, for the name it asked for, now.
 Serve(c) == /\ pc[c] = "serve" /\ pc' = [pc EXCEPT ![c] = "idle"]
             /\ servedOK' = (servedOK /\ ValidFor(cert[c], want[c], clock))
-            /\ UNCHANGED <<clock, cache, lru, want, cert>>
+            /\ UNCHANGED <<clock, cache, lru, want, cert, hist>>
 
 CNext(c) == (\E n \in Names : Begin(c, n)) \/ Lookup(c) \/ Verify(c) \/ Generate(c) \/ Add(c) \/ Serve(c)
 Next == Tick \/ \E c \in Clients : CNext(c)
 Spec == Init /\ [][Next]_vars
+
+(* ---------------- decisions around the leaf (replayed as cases) ---------------- *)
+\* which name the leaf must be valid for, whether the session is intercepted at all, and whether the
+\* inner request may reach the origin
+AuthKinds == {"dns", "dnsUpper", "ipv4", "ipv6"}
+SniKinds == {"absent", "same", "other"}
+OriginCerts == {"valid", "expired", "wrongname", "untrusted"}
+MCases == { c \in [auth : AuthKinds, port : {443, 8443}, sni : SniKinds, origin : OriginCerts, excluded : BOOLEAN, xfp : {"absent", "https", "http"}] :
+             /\ (c.auth \in {"ipv4", "ipv6"} => c.sni = "absent")        \* clients send no SNI for IP literals
+             /\ (c.excluded => c.sni # "other" /\ c.xfp = "absent" /\ c.auth # "dnsUpper")
+             /\ (c.sni = "other" => c.origin = "valid" /\ c.xfp = "absent") }
+MExpect(c) == [ intercepted |-> ~c.excluded,
+                leafFor     |-> IF c.sni = "other" THEN "sni" ELSE "authority",
+                \* the origin is contacted over verified TLS or not at all; never in clear text
+                originGetsRequest |-> c.origin = "valid",
+                clientGetsError   |-> c.origin # "valid" /\ ~c.excluded ]
+EmitCases == \A c \in MCases : PrintT(ToJson([c |-> c, exp |-> MExpect(c)]))
+EmitOnce == (clock = 0 /\ hist = <<>>) => EmitCases
+Emit == hist # <<>> => PrintT(ToJson([h |-> hist]))
+VIEW_ == <<clock, cache, lru, pc, want, cert, servedOK>>
 
 ServedValid == servedOK                                   \* C07: right name, inside validity
 CacheHoldsOwnName == \A n \in Names : cache[n] # NoCert => (KeyIgnoresName \/ cache[n].name = n)
